@@ -69,7 +69,7 @@ func Loop(r lineReader, p Parser, vm *vm.Type, doOut bool) {
 
 	for {
 		line, err := r.read()
-		if err != nil { // io.EOF
+		if err != nil && line == "" { // io.EOF
 			break
 		}
 
@@ -83,6 +83,10 @@ func Loop(r lineReader, p Parser, vm *vm.Type, doOut bool) {
 			processInput(input, p, vm, doOut)
 			sep = ""
 			input = ""
+		}
+
+		if err != nil { // the last line of a file need not end in a newline
+			break
 		}
 	}
 }
